@@ -430,7 +430,6 @@ func c05Options(c *Ctx) {
 	}
 }
 
-
 // c05KeyInjective (KEY-INJECTIVE, added after seeded change C05-a): locations are looked up through a string key
 // built from the source path ([]int32). The key is injective only if every byte of every element is written: for an
 // element variable of an integer type W bits wide the shifts applied before the byte() truncation must be exactly
